@@ -95,6 +95,7 @@ pub fn honest_fm(out: &mut Out, prop: &str, inst: &fmrun::Inst, kind: &RngKind, 
         fm::tap_start();
         let r = fmrun::Proof::verify_batch(&mut [vt], std::slice::from_ref(&stmt), std::slice::from_ref(&proof), action);
         let msm_in = fm::msm_inputs();
+        let whole = fm::tap_is_whole_check();
         let residuals = fm::tap_take();
         let vrecs = tap::take();
         out.oracle(&format!("{}:verify-ok:fm:{:?}", prop, action), r.is_ok(), &key, &format!("err={:?}", r.as_ref().err()));
@@ -116,7 +117,7 @@ pub fn honest_fm(out: &mut Out, prop: &str, inst: &fmrun::Inst, kind: &RngKind, 
                     let res = residuals.last().cloned().unwrap_or_default();
                     out.req(
                         format!("verify {} {} {} w={}", fmx::stmt_wire(inst, &pr, &stmt.commitments), parts.wire(), ch.wire(), w.first().map(hs).unwrap_or("00".into())),
-                        format!("res={} verdict={} msms={}", fmx::vstr(&res), if r.is_ok() { "ok" } else { "err" }, residuals.len()),
+                        format!("res={} verdict={} msms={} whole={}", fmx::vstr(&res), if r.is_ok() { "ok" } else { "err" }, residuals.len(), whole as u8),
                     );
                     // scalar-level tie: the lists handed to the final multiscalar multiplication
                     if let Some((st, dy, table)) = msm_in.last() {
@@ -134,7 +135,7 @@ pub fn honest_fm(out: &mut Out, prop: &str, inst: &fmrun::Inst, kind: &RngKind, 
                                 ch.wire(),
                                 w.first().map(hs).unwrap_or("00".into())
                             ),
-                            format!("static={} dynamic={} table={} msms={}", hlist(st), hlist(dy), table, msm_in.len()),
+                            format!("static={} dynamic={} table={} msms={} consistent={}", hlist(st), hlist(dy), table, msm_in.len(), whole as u8),
                         );
                     }
                 }
@@ -317,6 +318,7 @@ pub fn c02(opts: &Opts, out: &mut Out) {
             tap::start();
             fm::tap_start();
             let r = fmrun::Proof::verify_batch(&mut [vt], std::slice::from_ref(&stmt), std::slice::from_ref(&mproof), VerifyAction::VerifyOnly);
+            let whole = fm::tap_is_whole_check();
             let residuals = fm::tap_take();
             let vrecs = tap::take();
             count += 1;
@@ -335,7 +337,7 @@ pub fn c02(opts: &Opts, out: &mut Out) {
                 let res = residuals.last().cloned().unwrap_or_default();
                 out.req(
                     format!("verify {} {} {} w={}", fmx::stmt_wire(&inst, &pr, &stmt.commitments), mp.wire(), ch.wire(), w.first().map(hs).unwrap_or("00".into())),
-                    format!("res={} verdict={} msms={} mut={}", fmx::vstr(&res), if r.is_ok() { "ok" } else { "err" }, residuals.len(), name.replace(' ', "_")),
+                    format!("res={} verdict={} msms={} whole={} mut={}", fmx::vstr(&res), if r.is_ok() { "ok" } else { "err" }, residuals.len(), whole as u8, name.replace(' ', "_")),
                 );
             }
         }
